@@ -218,7 +218,7 @@ func TestC02(t *testing.T) {
 	vcore.Run(t, "C02", rapid.Custom(func(t *rapid.T) Case { return GenHistory(t, c02Params) }), checkC02)
 }
 
-var c03Params = &HistoryParams{MinOps: 15, MaxOps: 50, Cloud: 0, Lag: true, EndQuiesce: true, Ranges: true,
+var c03Params = &HistoryParams{MinOps: 15, MaxOps: 50, Cloud: 0, Lag: true, EndQuiesce: true, Ranges: true, CrFail: true,
 	Weights: map[string]int{"create": 16, "delete": 14, "sched": 18, "phase": 8, "deliver": 10, "unbind": 10, "drop": 3, "reserve": 0,
 		"unreserve": 0, "fipevent": 0, "apirelease": 0, "restart": 4, "poolapi": 0, "poolobj": 0, "scale": 6, "delwl": 3, "mkwl": 2,
 		"quiesce": 4, "resync": 6}}
